@@ -63,6 +63,8 @@ func c07Kinds() []c07kind {
 		{name: "filter-error-in-elsif", src: func(string) string { return "{% if false %}\n{% elsif 1 | vfail %}{% endif %}" }, render: true, cause: 2, offset: after("{% elsif")},
 		{name: "filter-error-in-case", src: func(string) string { return "{% case 1 | vfail %}{% when 1 %}{% endcase %}" }, render: true, cause: 2},
 		{name: "filter-error-in-for", src: func(string) string { return "{% for q in one | vfail %}{% endfor %}" }, render: true, cause: 2},
+		{name: "filter-returns-sourceerror", src: func(string) string { return "{{ 1 | vinner }}" }, render: true, cause: 1, mustName: "vinner"},
+		{name: "filter-returns-sourceerror-in-if", src: func(string) string { return "{% if 1 | vinner %}{% endif %}" }, render: true, cause: 1},
 		{name: "division-by-zero", src: func(string) string { return "{{ 1 | divided_by: 0 }}" }, render: true, cause: 1},
 		{name: "conversion-error", src: func(string) string { return "{{ \"x\" | plus: 1 }}" }, render: true, cause: 1},
 		{name: "range-endpoint-error", src: func(string) string { return "{% for q in (\"a\"..2) %}{% endfor %}" }, render: true},
@@ -107,6 +109,16 @@ func runC07(c *core.Ctx) {
 	mk := func(strict bool) *liquid.Engine {
 		e := liquid.NewEngine()
 		e.RegisterFilter("vfail", func(v any) (any, error) { return nil, c07Sentinel })
+		// a filter that renders a snippet with another engine and hands back that engine's SourceError: the
+		// failure of THIS template is still located at the object that applied the filter
+		inner := liquid.NewEngine()
+		e.RegisterFilter("vinner", func(v any) (any, error) {
+			_, err := inner.ParseTemplateLocation([]byte("x\n\n{{ 1 | nosuchinnerfilter"+"_x }}{% endif %}"), "inner-snippet.liquid", 700)
+			if err == nil {
+				return nil, c07Sentinel
+			}
+			return nil, err
+		})
 		if strict {
 			e.StrictVariables()
 		}
@@ -217,7 +229,10 @@ func runC07(c *core.Ctx) {
 			c.Violate(key, "SourceError.LineNumber() is not the line on which the innermost failing tag or object begins", wit(fmt.Sprintf("LineNumber()=%d", res.Line)))
 		}
 		if k.mustName != "" {
-			want := fmt.Sprintf(k.mustName, nonce)
+			want := k.mustName
+			if strings.Contains(want, "%s") {
+				want = fmt.Sprintf(k.mustName, nonce)
+			}
 			if !strings.Contains(res.Err, want) {
 				c.Violate("message|"+k.name, "the error message does not name the unknown tag or filter", wit("message lacks "+want))
 			}
